@@ -171,6 +171,28 @@ class Decision(object):
                 raise Undecidable(norm_stmt(st)[:60])
 
 
+def save_restore_rule(rep, rid, fi):
+    """`old = X.a; X.a = <new>; ...; X.a = old`: the temporary setting is undone on every normal path from where it was made."""
+    cfg = cfg_of(fi)
+    n = 0
+    saves = {}
+    for a in walk_no_nested(fi.node):
+        if isinstance(a, ast.Assign) and isinstance(a.targets[0], ast.Name) and isinstance(a.value, ast.Attribute):
+            saves.setdefault(a.targets[0].id, (norm(a.value), a))
+    for v, (attr, sv) in sorted(saves.items()):
+        restores = [x for x in cfg.nodes if x.kind == "stmt" and isinstance(x.ast, ast.Assign) and norm(x.ast.targets[0]) == attr and isinstance(x.ast.value, ast.Name) and x.ast.value.id == v]
+        if not restores:
+            continue
+        sets = [x for x in cfg.nodes if x.kind == "stmt" and isinstance(x.ast, ast.Assign) and norm(x.ast.targets[0]) == attr and x not in restores]
+        rid_ = {x.id for x in restores}
+        for st in sets:
+            n += 1
+            ok, w = cfg.must_pass(st, lambda y: y.id in rid_)
+            rep.check(ok, rid, fi.qualname, "temporary setting of %s not undone on some path" % attr, fn_where(fi, st.stmt), "%s: `%s` is followed by `%s = %s` on every normal path" % (fi.name, norm_stmt(st.stmt)[:40], attr, v),
+                      "%s changes `%s` temporarily (`%s`, old value saved in `%s`) and has a normal exit that does not put the old value back: the object the caller passed in (or the shared tokenizer) keeps the temporary setting, so later operations on it behave differently" % (fi.qualname, attr, norm_stmt(st.stmt)[:50], v))
+    return n
+
+
 def module_state_rule(index, rep, rid, modules):
     """Functions that are to be pure functions of their arguments keep no state between calls: no function of the
     module mutates a module-level mutable container (directly or through a local alias)."""
